@@ -498,6 +498,15 @@ BadCand(m) ==
                                   q \in {y \in Live1(m) \X RevShifts : y[2] <= m.c1[y[1]].vo[1].val}}
                                \cup {[EmptyTx(1) EXCEPT !.res = <<[cid |-> cid, kind |-> "proof", pf |-> "ok", ren |-> NoRen]>>, !.tag = "prove1"] :
                                   cid \in Live1(m)} ELSE {})} ELSE {})
+\* an input whose parent id is the id of an element of ANOTHER kind touched earlier in the same block (the code keeps one
+\* id -> index map for all kinds of in-block elements): such an id denotes no siacoin output, whoever signs and whatever
+\* value is claimed. The candidates claim owner and value of every siacoin output the block has touched so far.
+\cup (IF "confuse" \in Defects /\ 1 \in Vers /\ m.nv2 = 0 THEN
+        LET other == {id \in (DOMAIN m.c1 \cup DOMAIN m.sf \cup m.spends) : id[1] \in {SFO, FC1} /\ (id[2] = child \/ id \in m.spends)}
+            own   == {<<m.sc[y].val, m.sc[y].addr>> : y \in {z \in DOMAIN m.sc : z[2] = child \/ z \in m.spends}}
+                     \cup {<<sc[y].val, sc[y].addr>> : y \in {z \in DOMAIN sc : z \in m.spends}}
+        IN {[EmptyTx(1) EXCEPT !.sci = <<[id |-> q[1], auth |-> "as:" \o q[2][2]]>>, !.sco = <<Out(q[2][1], q[2][2])>>, !.tag = "confuse"] :
+               q \in other \X {w \in own : w[1] > 0 /\ w[2] \in Owners}} ELSE {})
 \cup (IF "early" \in Defects /\ 2 \in Vers THEN
         {[EmptyTx(2) EXCEPT !.res = <<[cid |-> q[1], kind |-> q[2], pf |-> "ok", ren |-> NoRen]>>, !.tag = q[2] \o "!early"] :
             q \in Live2(m) \X {"proof", "expire"}} ELSE {})
